@@ -107,6 +107,23 @@ class DictInterp:
                     raise AnalysisError(f"{fi.qualname}: unsupported delete `{norm(st)}`")
             elif isinstance(st, ast.Pass):
                 continue
+            elif isinstance(st, ast.AugAssign) and isinstance(st.op, ast.BitOr) and isinstance(st.target, (ast.Name, ast.Subscript)) \
+                    and isinstance(self._expr(fi, st.target, env), DV):
+                # `d |= {...}`: in-place update of the dictionary object (every alias of it sees the new keys)
+                tgt = self._expr(fi, st.target, env)
+                add = self._expr(fi, st.value, env)
+                if not isinstance(add, DV):
+                    raise AnalysisError(f"{fi.qualname}: `{norm(st)[:60]}` merges something that is not a dictionary the interpreter can follow")
+                for k_, v_ in add.items.items():
+                    tgt.items[k_] = v_
+                    tgt.origin[k_] = add.origin.get(k_, fi)
+                    if cond:
+                        tgt.conditional.add(k_)
+                        if isinstance(cond, tuple):
+                            tgt.cond_tests[k_] = cond
+                tgt.conditional |= add.conditional
+                tgt.cond_tests.update(add.cond_tests)
+                tgt.opaque_spreads += add.opaque_spreads
             else:
                 # statement kinds that do not touch tracked dicts are fine
                 touched = {n.id for n in ast.walk(st) if isinstance(n, ast.Name)} & {k for k, v in env.items() if isinstance(v, DV)}
